@@ -5,6 +5,10 @@ When ``_crashed`` is True, ``Event.invoke()`` silently drops events targeting
 that entity (same pattern as cancelled events) and ``ProcessContinuation``
 parks the entity's in-flight processes instead of advancing them; they are
 resumed when the entity restarts.
+
+Crash and pause windows on the same entity may overlap or nest.  The entity
+stays down until *every* window covering it has ended, so the faults count
+the open windows (``_down_count``) instead of toggling the flag blindly.
 """
 
 from __future__ import annotations
@@ -20,6 +24,26 @@ if TYPE_CHECKING:
     from happysimulator.faults.fault import FaultContext
 
 logger = logging.getLogger(__name__)
+
+
+def _enter_down_window(entity) -> None:
+    """A crash/pause window opens: the entity is down while any window is open."""
+    entity._down_count = getattr(entity, "_down_count", 0) + 1
+    entity._crashed = True
+
+
+def _leave_down_window(entity, now: Instant) -> list[Event]:
+    """A crash/pause window closes: bring the entity back once no window is left.
+
+    Returns the frozen processes to re-schedule (empty while another
+    overlapping or nested window still keeps the entity down).
+    """
+    remaining = max(0, getattr(entity, "_down_count", 1) - 1)
+    entity._down_count = remaining
+    if remaining > 0:
+        return []
+    entity._crashed = False
+    return _resume_parked_processes(entity, now)
 
 
 def _resume_parked_processes(entity, now: Instant) -> list[Event]:
@@ -62,7 +86,7 @@ class CrashNode:
         events: list[Event] = []
 
         def crash(e: Event) -> None:
-            entity._crashed = True  # type: ignore[attr-defined]
+            _enter_down_window(entity)
             logger.info("[FaultInjection] Crashed '%s' at %s", entity_name, e.time)
 
         events.append(
@@ -77,13 +101,12 @@ class CrashNode:
         if self.restart_at is not None:
 
             def restart(e: Event) -> list[Event]:
-                entity._crashed = False  # type: ignore[attr-defined]
                 logger.info(
                     "[FaultInjection] Restarted '%s' at %s",
                     entity_name,
                     e.time,
                 )
-                return _resume_parked_processes(entity, e.time)
+                return _leave_down_window(entity, e.time)
 
             events.append(
                 Event.once(
@@ -120,13 +143,12 @@ class PauseNode:
         events: list[Event] = []
 
         def pause(e: Event) -> None:
-            entity._crashed = True  # type: ignore[attr-defined]
+            _enter_down_window(entity)
             logger.info("[FaultInjection] Paused '%s' at %s", entity_name, e.time)
 
         def resume(e: Event) -> list[Event]:
-            entity._crashed = False  # type: ignore[attr-defined]
             logger.info("[FaultInjection] Resumed '%s' at %s", entity_name, e.time)
-            return _resume_parked_processes(entity, e.time)
+            return _leave_down_window(entity, e.time)
 
         events.append(
             Event.once(
